@@ -363,7 +363,8 @@ fn random_word(rng: &mut Rng, gens: i64, max_len: usize) -> Word {
             if rng.chance(1, 25) {
                 0
             } else {
-                let g = rng.range(1, gens);
+                // mostly small generator numbers, occasionally huge ones (comparison / negation edge cases)
+                let g = if rng.chance(1, 60) { *rng.pick(&[1_000_000i64, 9_000_000_000, i64::MAX]) } else { rng.range(1, gens) };
                 if rng.chance(1, 2) {
                     g
                 } else {
@@ -411,6 +412,9 @@ fn order_axioms(cfg: &Cfg) -> Ctx {
         words.insert(reduce(&w));
     }
     for w in raw_words(&[-3, -2, -1, 1, 2, 3], cfg.tier.pick(2, 3)) {
+        words.insert(reduce(&w));
+    }
+    for w in raw_words(&[-i64::MAX, -9_000_000_000, -1, 1, 9_000_000_000, i64::MAX], 2) {
         words.insert(reduce(&w));
     }
     let words: Vec<Word> = words.into_iter().collect();
